@@ -542,12 +542,6 @@ func runSeq(cs seqCase, st *stepStats) (err error) {
 		}
 	}()
 
-	knownHit := ""
-	defer func() {
-		if err == nil && knownHit != "" {
-			err = errKnown{knownHit}
-		}
-	}()
 	var ms runtime.MemStats
 	runtime.ReadMemStats(&ms)
 	alloc0 := ms.TotalAlloc
@@ -616,31 +610,21 @@ func runSeq(cs seqCase, st *stepStats) (err error) {
 			// penalties expire no earlier than an hour after they were earned: the score is at least the sum
 			// of what was earned less than an hour (minus a margin for the seconds this case has been running) ago
 			if banned, _ := c.VerifBanned(); !banned {
-				due, expiredBeforeFresh, seenOld := 0, false, false
+				due := 0
 				for _, p := range penalties {
 					if p.age < 3600-30 {
 						due += p.amt
-						expiredBeforeFresh = expiredBeforeFresh || seenOld
-					} else if p.age >= 3600 {
-						seenOld = true
 					}
 				}
 				if have := c.VerifMisbehave(); have < due {
-					err := fmt.Errorf("after %d s on the connection the misbehaviour score is %d, although %d points were earned less than an hour ago (penalties expire too early)", penalties[0].age, have, due)
-					if expiredBeforeFresh && pbt.FindingOpen(keyExpireOrder) {
-						knownHit = keyExpireOrder
-					} else {
-						return err
-					}
+					return fmt.Errorf("after %d s on the connection the misbehaviour score is %d, although %d points were earned less than an hour ago (penalties expire too early)", penalties[0].age, have, due)
 				}
 				score = c.VerifMisbehave()
-				keep := penalties[:0]
-				for _, p := range penalties {
-					if p.age < 3600 {
-						keep = append(keep, p)
-					}
+				// the node drops expired records from the front of its history (possibly late: its 16-bit
+				// time stamps alias every 65536 s); the model keeps the same records
+				if n := c.VerifMisbehaveRecords(); n <= len(penalties) {
+					penalties = penalties[len(penalties)-n:]
 				}
-				penalties = keep
 			}
 			if c.IsBroken() { // a time-out ended the connection
 				return endConnection()
@@ -729,8 +713,15 @@ func runSeq(cs seqCase, st *stepStats) (err error) {
 				st.genuineAccepted++
 			}
 		}
-		if now := c.VerifMisbehave(); now > score { // the message earned the peer a penalty
-			penalties = append(penalties, penalty{amt: now - score})
+		if now := c.VerifMisbehave(); now > score { // the message earned the peer a penalty (one record per Misbehave call)
+			k := max(c.VerifMisbehaveRecords()-len(penalties), 1)
+			for i := 0; i < k; i++ {
+				amt := (now - score) / k
+				if i == 0 {
+					amt += (now - score) % k
+				}
+				penalties = append(penalties, penalty{amt: amt})
+			}
 			score = now
 		}
 		if leave || c.IsBroken() {
@@ -792,11 +783,6 @@ func runSeq(cs seqCase, st *stepStats) (err error) {
 }
 
 var errReconnect = fmt.Errorf("reconnect")
-
-// errKnown: the only disagreement of the case lies in the class of an open known finding.
-type errKnown struct{ key string }
-
-func (e errKnown) Error() string { return "known finding " + e.key }
 
 // harvestCounters adds gocoin's own event counters of the finished case to the evidence: they show how
 // deep into the handlers the generated messages got (headers accepted, blocks queued, transactions
@@ -1161,10 +1147,6 @@ func TestHandlerSequences(t *testing.T) {
 		}
 		if st.tickExpiredThenFresh {
 			r.Class("clock/tick_with_expired_then_fresh_penalty")
-		}
-		if ek, ok := err.(errKnown); ok {
-			r.Excluded(ek.key)
-			return
 		}
 		if err != nil {
 			if key := knownClass(cs.Msgs, err); key != "" {
